@@ -575,4 +575,46 @@ theorem facet_shared_isolated_stage (D : Disc) (h1 : D.samplePops = false)
     exact All2.imp (fun a b hab => BranchShared.congr (w := w) rfl rfl rfl rfl rfl hab) hall
   · cases hs
 
+/-! ### `tz_aware`: the results are handed out as a rebuild -/
+
+theorem dr_resultCopy : Dr.resultCopy = .deep := rfl
+
+theorem deepTmpL_toVals : ∀ (l : List HV) (n : Nat), toVals (deepTmpL l n).1 = toVals l
+  | [], _ => by simp [deepTmpL, toVals]
+  | v :: r, n => by simp [deepTmpL, toVals, deepTmp_toVal, deepTmpL_toVals r]
+
+/-- the documents a `tz_aware` call hands out are made of objects allocated after every stage
+    has finished — in ANY world — and equal the working documents as values -/
+theorem handOut_tz (w : World) :
+    allL (inR w.nextTmp (deepTmpL w.work w.nextTmp).2) (handOut Dr true w) = true ∧
+    toVals (handOut Dr true w) = toVals w.work := by
+  simp only [handOut, dr_resultCopy, if_true]
+  rw [runL_deep_eq]
+  exact ⟨(deepTmpL_win (b := w.nextTmp) w.work w.nextTmp (Nat.le_refl _)).2, deepTmpL_toVals _ _⟩
+
+/-- the state a call leaves does not depend on `tz_aware` -/
+theorem aggregateTz_state (D : Disc) (sem : Sem) (tz : Bool) (s s' : State) (coll : String)
+    (out : List HV) (h : aggregateTz D sem tz s coll = .ok (out, s')) :
+    ∃ w, aggregateStages D sem s coll (parsePipe s.pipe) = .ok w ∧ out = handOut D tz w ∧
+      s' = w.state ∧ aggregate D sem s coll = .ok (w.work, s') := by
+  simp only [aggregateTz] at h
+  split at h
+  · next w hw =>
+    cases h
+    exact ⟨w, hw, rfl, rfl, by simp [aggregate, aggregateStages, hw]⟩
+  · cases h
+
+/-- everything the call holds when its stages have finished lies below the counter: the window
+    of the rebuilt results is disjoint from all of it -/
+theorem aggregateStages_below (sem : Sem) (s : State) (coll : String) (stages : List Stage)
+    (w : World) (hp : s.persistent = true)
+    (h : aggregateStages Dr sem s coll stages = .ok w) :
+    allL (below w.nextTmp) w.work = true ∧ allColls (below w.nextTmp) w.colls = true ∧
+      w.pipe.all (below w.nextTmp) = true ∧ w.cpipe.all (below w.nextTmp) = true := by
+  have h0 := world_inv s coll hp
+  have st := (runStages_step sem stages _ _ w h0.1 h0.2 h).1.inv
+  exact ⟨allL_mono (fun i hi => inR_below i hi) _ st.work,
+    allColls_mono (fun i hi => notTmp_below _ i hi) _ st.colls,
+    all_mono (below_mono st.hb) _ st.pipe, all_mono (below_mono st.hb) _ st.cpipe⟩
+
 end MongoModel.Proofs.C16
